@@ -52,6 +52,15 @@ impl<K, V, S> FrozenMap<K, V, S> {
     pub fn insert(&self, k: K, v: V) -> (r: &V)
         ensures *r == v,
     { unimplemented!() }
+    /// FrozenMap::insert reached through a UNIQUE borrow of its owner (cell erasure as in rule R12: the sequential
+    /// effect of elsa's `entry(k).or_insert(v)` -- an existing entry is kept, otherwise (k, v) is added; the aliasing
+    /// question that interior mutability raises is thereby excluded)
+    #[verifier::external_body]
+    pub fn vinsert_mut(&mut self, k: K, v: V)
+        ensures
+            final(self).spec_get(k) == (if old(self).spec_get(k) is Some { old(self).spec_get(k) } else { Some(v) }),
+            forall|k2: K| k2 != k ==> #[trigger] final(self).spec_get(k2) == old(self).spec_get(k2),
+    { unimplemented!() }
     /// `map[&k]` (rule R8frozenindex): panics when the key is absent
     #[verifier::external_body]
     pub fn vindex(&self, k: &K) -> (r: &V)
